@@ -58,7 +58,7 @@ pub fn number_regex_parser(config: &SmartCalcConfig, tokinizer: &mut Tokinizer, 
                         match capture.name("NOTATION") {
                             Some(notation) => {
                                 notation_match = Some(notation);
-                                num * match notation.as_str() {
+                                let multiplier = match notation.as_str() {
                                     "k" | "K" => 1_000.0,
                                     "M" => 1_000_000.0,
                                     "G" => 1_000_000_000.0,
@@ -67,7 +67,14 @@ pub fn number_regex_parser(config: &SmartCalcConfig, tokinizer: &mut Tokinizer, 
                                     "Z" => 1_000_000_000_000_000_000.0,
                                     "Y" => 1_000_000_000_000_000_000_000.0,
                                     _ => 1.0
+                                };
+
+                                /* Notation is part of the number, otherwise it is read again as a text (2M was 2.000.000 meter) */
+                                if multiplier != 1.0 {
+                                    parse_end = notation.end();
                                 }
+
+                                num * multiplier
                             },
                             _ => num
                         }
